@@ -95,6 +95,21 @@ func classify(h *History) facts {
 	add(f.multiCtx, "multi_context_export")
 	add(f.twoContrib, "two_contributor_multi_context_export")
 	add(f.oddLast, "odd_context_last")
+	sharedSpan := false
+	for _, e := range h.Exports {
+		seen := map[string]int{}
+		for _, it := range e.Items {
+			if r, ok := h.Owner[it.ID]; ok {
+				if g := h.Groups[h.Sc.Reqs[r].Ctx]; g != nil && g.SpanID != "" {
+					if prev, ok := seen[g.SpanID]; ok && prev != g.ID {
+						sharedSpan = true
+					}
+					seen[g.SpanID] = g.ID
+				}
+			}
+		}
+	}
+	add(sharedSpan, "export_with_distinct_contexts_sharing_one_span")
 	add(h.Sc.Gated, "gated_exports")
 	add(h.Sc.HonourCancel, "next_consumer_honours_cancel")
 	add(h.Sc.Cfg.Early, "early_return")
@@ -220,7 +235,7 @@ var specs = map[string]propSpec{
 	},
 	"C18": {
 		id:         "C18",
-		profile:    Profile{Gated: 80, HonourCancel: 80, Cancels: true, Deadlines: true, Spans: true, Conc: []int{0, 0, 2}, EarlyPct: 10, SharedCtx: true, Concurrent: true, MetaPct: 20},
+		profile:    Profile{Gated: 80, HonourCancel: 80, Cancels: true, Deadlines: true, Spans: true, Conc: []int{0, 0, 2}, EarlyPct: 10, SharedCtx: true, SharedSpan: 30, Concurrent: true, MetaPct: 20},
 		verdict:    VerdictC18,
 		nontrivial: func(f facts, h *History) bool { return f.twoContrib || f.oddLast },
 	},
